@@ -19,6 +19,8 @@ Next ==
        [] e.ev = "decode" -> Report("NoPanic", ~e.panic)
        \* a nested struct held by a pointer that is nil: nothing is encoded for it, the rest round-trips
        [] e.ev = "marshal-nilptr" -> Report("NoPanic", ~e.panic) /\ Report("RoundTrip", e.panic \/ e.roundtrip)
+       \* lists whose elements are held by pointers: encoded like lists of values, and they come back
+       [] e.ev = "marshal-ptrlist" -> Report("NoPanic", ~e.panic) /\ Report("RoundTrip", e.panic \/ (e.roundtrip /\ e.samebytes))
        [] OTHER -> TRUE
   /\ l' = l + 1
 Accepted == TLCGet("stats").diameter = Len(Trace) + 1
